@@ -197,7 +197,9 @@ def main():
             e = hazards_all.setdefault(f"{hn}:{kind}", {"n": 0, "confirmed": 0, "sample": None})
             e["n"] += d["n"]; e["confirmed"] += d["confirmed"]
             e["sample"] = e["sample"] or d["sample"]
-            if prop in spec.get("hazard_props", ["C16"]) and prop in h.opts.get("hazard_props", h.props):
+            if kind == "raise" and prop not in h.opts.get("raise_props", ["C16"]):
+                inconclusive.append(f"{hn}[{ck}]: {d['n']} path(s) ended with an exception of the code under analysis before the obligations were reached: {d['sample']['detail'][:200]}")
+            if prop in h.opts.get("raise_props", ["C16"]) and prop in h.props:
                 if kind == "raise" and d["confirmed"]:
                     violations.append((hn, ck, f"{prop}:no exception [{d['sample']['detail'][:140]}]", {"inputs": d["sample"]["inputs"], "raise": True}, d["confirmed"]))
     # coverage goals
